@@ -193,17 +193,67 @@ func v09Keys(qs []v09Query) string {
 }
 
 // TestVerifC09_Grid is the deterministic backbone: a few fixed rule files that
-// use every pattern kind, asked over the full grid of a small universe of
-// hosts x protocols x boundary ports, in five passes whose innermost loop
-// varies a different component of the lookup key (so neighbours in time differ
-// in exactly the component a broken cache key would drop), once per cache size.
+// use every pattern kind (and the motifs a rule-merging optimiser would exploit:
+// runs of adjacent same-action nested / duplicated / unsorted networks, a
+// port-limited "all" first, a catch-all last), asked over the full grid of a
+// small universe of hosts x protocols x boundary ports, in five passes whose
+// innermost loop varies a different component of the lookup key (so neighbours
+// in time differ in exactly the component a broken cache key would drop), once
+// per cache size.
 func TestVerifC09_Grid(t *testing.T) {
 	st := newVStats("TestVerifC09_Grid")
 	defer st.Flush()
 	type rl = v09Rule
 	a := v09A
-	files := [][]v09Rule{
-		{
+	type grid struct {
+		rules []v09Rule
+		names []string
+		v4s   []netip.Addr
+		v6s   []netip.Addr
+		ports []uint16
+	}
+	names := []string{"", "example.com", "EXAMPLE.COM.", "notexample.com", "sub.example.com", "Sub.Example.Com", "com", "example.co", "example.com.evil.org"}
+	v4s := []netip.Addr{{}, a("10.0.0.1"), a("10.0.1.1"), a("10.0.2.1")}
+	v6s := []netip.Addr{{}, a("2001:db8::1"), a("2001:db8:8000::1"), a("2001:db8:7fff::1")}
+	ports := []uint16{1, 52, 53, 54, 79, 80, 81, 443, 999, 1000, 1001, 1999, 2000, 2001, 65535}
+	// run(ob, proto, hijack, nets...) = adjacent rules with one action
+	run := func(ob string, proto int, lo, hi uint16, hijack string, nets ...string) []v09Rule {
+		var out []v09Rule
+		for _, n := range nets {
+			r := rl{Ob: ob, Proto: proto, AnyPort: lo == 0, Lo: lo, Hi: hi}
+			pp := []string{"*", "tcp", "udp"}[proto]
+			if lo != 0 {
+				pp += fmt.Sprintf("/%d-%d", lo, hi)
+			}
+			if p, err := netip.ParsePrefix(n); err == nil {
+				r.Kind, r.Addr, r.Bits = v09KCIDR, p.Addr(), p.Bits()
+			} else {
+				r.Kind, r.Addr = v09KIP, a(n)
+			}
+			r.Text = fmt.Sprintf("%s(%s, %s", ob, n, pp)
+			if hijack != "" {
+				r.Hijack = a(hijack)
+				r.Text += ", " + hijack
+			}
+			r.Text += ")"
+			out = append(out, r)
+		}
+		return out
+	}
+	cat := func(parts ...[]v09Rule) []v09Rule {
+		var out []v09Rule
+		for _, p := range parts {
+			out = append(out, p...)
+		}
+		return out
+	}
+	one := func(r v09Rule) []v09Rule { return []v09Rule{r} }
+	nets4 := []netip.Addr{{}, a("10.30.0.1"), a("10.10.0.1"), a("10.20.30.40"), a("10.20.30.41"), a("10.255.255.255"), a("10.0.0.0"),
+		a("11.0.0.0"), a("9.255.255.255"), a("10.10.255.255"), a("10.11.0.0"), a("10.15.0.1"), a("192.168.0.1"), a("0.0.0.0"), a("255.255.255.255")}
+	nets6 := []netip.Addr{{}, a("2001:db8:30::1"), a("2001:db8:10::1"), a("2001:db8:20::1"), a("2001:db8:20::2"), a("2001:db8:15::"),
+		a("2001:db8:ffff:ffff:ffff:ffff:ffff:ffff"), a("2001:db9::"), a("2001:db7:ffff:ffff:ffff:ffff:ffff:ffff"), a("::"), a("ffff:ffff:ffff:ffff:ffff:ffff:ffff:ffff")}
+	files := []grid{
+		{rules: []v09Rule{
 			rl{Ob: "ob1", Kind: v09KExact, Dom: "example.com", Proto: 1, Lo: 80, Hi: 80, Text: "ob1(EXAMPLE.com., tcp/80)"},
 			rl{Ob: "ob2", Kind: v09KSuffix, Dom: "example.com", Proto: 2, AnyPort: true, Text: "ob2(suffix:example.com, udp)"},
 			rl{Ob: "ob3", Kind: v09KWild, Dom: "*.example.com", Proto: 0, Lo: 1000, Hi: 2000, Hijack: a("8.8.8.8"), Text: "ob3(*.Example.COM, */1000-2000, 8.8.8.8)"},
@@ -211,25 +261,39 @@ func TestVerifC09_Grid(t *testing.T) {
 			rl{Ob: "direct", Kind: v09KCIDR, Addr: a("2001:db8::"), Bits: 33, Proto: 1, AnyPort: true, Hijack: a("2001:db8::2"), Text: "Direct (2001:DB8::/33, TCP/*, 2001:db8::2)"},
 			rl{Ob: "ob1", Kind: v09KCIDR, Addr: a("10.0.0.0"), Bits: 23, Proto: 2, Lo: 53, Hi: 53, Text: "ob1(10.0.0.0/23,udp/53)"},
 			rl{Ob: "ob2", Kind: v09KAll, Proto: 1, Lo: 2000, Hi: 65535, Text: "ob2(all,tcp/2000-65535)"},
-		},
-		{
+		}, names: names, v4s: v4s, v6s: v6s, ports: ports},
+		{rules: []v09Rule{
 			rl{Ob: "ob3", Kind: v09KWild, Dom: "*example.c*", Proto: 2, Lo: 1, Hi: 79, Text: "ob3(*example.c*,udp/1-79)"},
 			rl{Ob: "ob1", Kind: v09KIP, Addr: a("2001:db8::1"), Proto: 0, AnyPort: true, Text: "ob1(2001:0DB8:0000:0000:0000:0000:0000:0001)"},
 			rl{Ob: "ob2", Kind: v09KCIDR, Addr: a("10.0.1.1"), Bits: 32, Proto: 0, AnyPort: true, Hijack: a("::1"), Text: "ob2(10.0.1.1/32, *, ::1)"},
 			rl{Ob: "ob1", Kind: v09KSuffix, Dom: "com", Proto: 1, Lo: 81, Hi: 999, Text: "ob1(suffix:COM., tcp/81-999)"},
 			rl{Ob: "ob3", Kind: v09KExact, Dom: "notexample.com", Proto: 0, AnyPort: true, Text: "ob3(notexample.com)"},
 			rl{Ob: "direct", Kind: v09KAll, Proto: 2, Lo: 443, Hi: 443, Text: "direct(*,udp/443)"},
-		},
-		{}, // the empty rule list: everything is default
+		}, names: names, v4s: v4s, v6s: v6s, ports: ports},
+		{names: names, v4s: v4s, v6s: v6s, ports: ports}, // the empty rule list: everything is default
+		// runs of adjacent same-action networks: nested, duplicated, single addresses, sorted ...
+		{rules: cat(
+			one(rl{Ob: "ob3", Kind: v09KAll, Proto: 2, Lo: 53, Hi: 53, Text: "ob3(all, udp/53)"}), // port-limited "all" first
+			run("ob1", 1, 0, 0, "", "10.0.0.0/8", "10.10.0.0/16", "10.20.0.0/16", "10.20.30.40", "10.20.0.0/16"),
+			run("ob2", 1, 0, 0, "", "0.0.0.0/0"),
+			run("ob2", 0, 0, 0, "8.8.8.8", "2001:db8::/32", "2001:db8:10::/48", "2001:db8:20::/48", "2001:db8:20::1", "2001:db8:10::/48"),
+			run("reject", 0, 0, 0, "", "10.0.0.0/7", "2001:db8::/31"),
+			one(rl{Ob: "direct", Kind: v09KAll, Proto: 0, AnyPort: true, Text: "direct(all)"}),
+		), names: []string{"", "example.com", "10.30.0.1"}, v4s: nets4, v6s: nets6, ports: []uint16{52, 53, 80}},
+		// ... and unsorted, the enclosing network last, /0 and /32|/128 members, port-limited action
+		{rules: cat(
+			run("ob1", 0, 80, 443, "", "10.20.30.40/32", "10.20.0.0/16", "10.10.0.0/16", "10.0.0.0/8", "10.10.0.1", "9.0.0.0/8"),
+			run("ob2", 2, 0, 0, "", "2001:db8:20::1/128", "2001:db8:20::/48", "2001:db8:10::/48", "::/0", "2001:db8::/32", "2001:db8:30::/127"),
+			run("ob3", 0, 0, 0, "::1", "0.0.0.0/0", "10.10.0.0/16", "10.20.0.0/16", "255.255.255.255/32"),
+			one(rl{Ob: "ob1", Kind: v09KSuffix, Dom: "example.com", Proto: 0, AnyPort: true, Text: "ob1(suffix:example.com)"}),
+		), names: []string{"", "example.com", "10.30.0.1"}, v4s: nets4, v6s: nets6, ports: []uint16{79, 80, 443, 444}},
 	}
-	names := []string{"", "example.com", "EXAMPLE.COM.", "notexample.com", "sub.example.com", "Sub.Example.Com", "com", "example.co", "example.com.evil.org"}
-	v4s := []netip.Addr{{}, a("10.0.0.1"), a("10.0.1.1"), a("10.0.2.1")}
-	v6s := []netip.Addr{{}, a("2001:db8::1"), a("2001:db8:8000::1"), a("2001:db8:7fff::1")}
 	protos := []int{1, 2}
-	ports := []uint16{1, 52, 53, 54, 79, 80, 81, 443, 999, 1000, 1001, 1999, 2000, 2001, 65535}
-	dims := []int{len(names), len(v4s), len(v6s), len(protos), len(ports)}
 	obm := v09ObMap()
-	for fi, rules := range files {
+	for fi, g := range files {
+		rules := g.rules
+		names, v4s, v6s, ports := g.names, g.v4s, g.v6s, g.ports
+		dims := []int{len(names), len(v4s), len(v6s), len(protos), len(ports)}
 		var lines []string
 		for i := range rules {
 			lines = append(lines, rules[i].Text)
@@ -254,6 +318,9 @@ func TestVerifC09_Grid(t *testing.T) {
 					}
 					if k == 5 {
 						q := v09Query{Name: names[idx[0]], V4: v4s[idx[1]], V6: v6s[idx[2]], Proto: protos[idx[3]], Port: ports[idx[4]], V4Long: n%2 == 0}
+						if lit, err := netip.ParseAddr(q.Name); err == nil && lit != q.V4 {
+							return // an IP-literal host only together with that resolved address (bound)
+						}
 						n++
 						msg, _, all := v09CheckOne(rs, rules, obm, &q)
 						if len(all) > 1 && v09MultiDiff(rules, all) {
